@@ -396,7 +396,7 @@ func init() {
 	}
 
 	ext("C15", "cancellation: the request context is cancelled while the handler runs (gRPC with and without grpc-timeout, gRPC-web over HTTP/1.1 and HTTP/2, HTTP transcoding) and the handler's own context must then be cancelled; a streaming gRPC handler whose client disconnects while it waits in RecvMsg (after 0..1 complete messages, 0..5 bytes into a further frame) or while it sends (connection gone from the 0th..3rd Write on)",
-		HarnessSpec{Name: "VerifH_cancel", Covers: []string{"grpc", "grpc-with-timeout", "grpc-web", "http", "stream-between-messages", "stream-inside-message", "send-fails", "send-ok"}})
+		HarnessSpec{Name: "VerifH_cancel", Covers: []string{"grpc", "grpc-with-timeout", "grpc-web", "http", "stream-between-messages", "stream-inside-message", "send-fails", "send-ok", "send-after-cancel"}})
 	props["C15"].Assume = append(props["C15"].Assume, "net/http's contract stands in for the HTTP server: on disconnect the request context is cancelled and the blocked body Read / response Write returns an error (the harness's reader / writer do exactly that at the point where the real ones would block)")
 	replaceOutside := func(id, prefix, with string) {
 		found := false
@@ -457,7 +457,7 @@ func init() {
 	conc := "goroutine model (cooperative, context-bounded: at most 2 preemptive switches per path in the quick tier, 3 in the thorough tier; scheduling points at mutex, RWMutex, WaitGroup, Once, sync/atomic incl. atomic.Value, sync.Pool, channel operations, goroutine start / end and the reflection round trips): the REAL RegisterConn / registerService / DropConn, two of them running concurrently with each other and with a request for an already-registered method, 3 scenarios"
 	ext("C12", conc,
 		HarnessSpec{Name: "VerifH_sched_selftest", Concurrent: true, Covers: []string{"lost-update", "no-lost-update"}},
-		HarnessSpec{Name: "VerifH_conc_registration", Concurrent: true, Covers: []string{"registerconn-registerservice", "registerconn-dropconn", "registerservice-dropconn"}})
+		HarnessSpec{Name: "VerifH_conc_registration", Concurrent: true, Covers: []string{"registerconn-registerservice", "registerconn-dropconn", "registerservice-dropconn", "failed-registerconn", "failed-after-earlier-success"}})
 	props["C12"].Assume = append(props["C12"].Assume, "the reflection client of a backend connection is answered by the harness's fake conversation (natively a real in-process gRPC backend with a real reflection service is dialled)", "plain (unsynchronised) memory accesses are not scheduling points")
 	replaceOutside("C12", "the interleaving quantifier itself and data-race freedom", "schedules with more preemptions than the bound, interleavings of unsynchronised memory accesses between two scheduling points, and data-race freedom as such (no happens-before tracking): replacing the atomic publication by a plain field would NOT be detected; removing or narrowing Mux.mu is (lost update)")
 
@@ -468,7 +468,7 @@ func init() {
 	addProp(&PropSpec{
 		ID: "C10",
 		Harnesses: []HarnessSpec{
-			{Name: "VerifH_proxy", Concurrent: true, Covers: []string{"U", "CS", "SS", "BD", "succeeds", "fails-before", "fails-during", "fails-after", "replies-after-end-of-stream", "returns-without-reading-all", "client-keeps-stream-open"}},
+			{Name: "VerifH_proxy", Concurrent: true, Covers: []string{"U", "CS", "SS", "BD", "succeeds", "fails-before", "fails-during", "fails-after", "replies-after-end-of-stream", "returns-without-reading-all", "client-keeps-stream-open", "multi-valued-metadata"}},
 		},
 		Bounds: map[string]string{
 			"quick":    "one gRPC call through the REAL RegisterConn + createConnHandler + serveGRPC for each streaming shape (unary, client, server, bidirectional); backend scripts: 0..2 replies (exactly 1 / 0 for single-reply shapes), final status OK / NotFound / Canceled / Unavailable, failing before reading, right after the first reply or at the end, reading the request stream first / last / never; client: 0..2 request messages, ending its stream or keeping it open until the call ends, one metadata value; goroutine model with context bound 1 (the proxy's pump goroutine, the backend handler goroutine and the serving goroutine; scheduling points at every channel / WaitGroup / pool / atomic operation and every network read / write of the fakes)",
@@ -488,7 +488,7 @@ func init() {
 	addProp(&PropSpec{
 		ID: "C20",
 		Harnesses: []HarnessSpec{
-			{Name: "VerifH_server_prefix", Covers: []string{"default-mount", "two-prefixes", "transcoding", "error", "twirp-error", "grpc", "grpc-web", "unrouted", "outside-prefix"}},
+			{Name: "VerifH_server_prefix", Covers: []string{"default-mount", "two-prefixes", "transcoding", "query", "error", "twirp-error", "grpc", "grpc-web", "unrouted", "outside-prefix"}},
 		},
 		Bounds: map[string]string{
 			"quick":    "NewServer (real; net/http.ServeMux pattern registration and routing, http.StripPrefix, the h2c wrapper and http2.ConfigureServer interpreted from source) with 4 mount configurations (default, MuxHandleOption(/api/), MuxHandleOption(/api, /v2/x/), MuxHandleOption(/)) plus HTTPHandlerOption(/static/); one request per entry kind - transcoding with a symbolic 1..2 byte path segment, failing handler (google.rpc.Status and Twirp error rendering), unary gRPC (ProtoMajor 2), unary gRPC-web, an unrouted path - sent as prefix+path to the server's handler and as path to an identically built bare mux: status, every response header, body, handler invocations and captured path variables must be equal; the same request under /other is answered 404 without reaching the mux; GET /static/file reaches the extra handler",
@@ -505,4 +505,9 @@ func init() {
 	ext("C13", race)
 	replaceOutside("C12", "schedules with more preemptions than the bound", "schedules with more preemptions than the bound, interleavings of unsynchronised memory accesses between two scheduling points (atomicity violations there are invisible; data RACES on them are reported by the happens-before detector), accesses made inside engine intrinsics (copy, append, library models) are not race-checked")
 	replaceOutside("C13", "data-race freedom as such (no happens-before tracking)", "races on memory touched only inside engine intrinsics (copy, append, library models), more than two concurrent requests, schedules beyond the context bound, interleavings of unsynchronised memory accesses between two scheduling points, the proxy's stream pumps under C13 (exercised, with race detection, under C10); pooled-buffer aliasing and pooled gzip reader / writer reuse are decided across consecutive AND concurrent requests")
+
+	ext("C13", "two goroutines compressing through one pooled CompressorGzip at the same time (real gzip interpreted, scheduling points at pool operations and destination writes, race detection on)",
+		HarnessSpec{Name: "VerifH_gzip_conc", Concurrent: true, StepsQ: 40000000, StepsT: 40000000, Covers: []string{"two-compressions"}})
+	ext("C13", "HTTP client streams (every read partition, as under C06) with the byte pool scribbled over between two receives, as a concurrent request would do",
+		HarnessSpec{Name: "VerifH_http_recv_stream", Covers: []string{"clean-eof", "truncated"}})
 }
